@@ -899,6 +899,8 @@ def _close(ctx, got, want, exact, scale=0.0):
         return False
     for g, w in zip(got, want):
         g = complex(g)
+        if not (math.isfinite(g.real) and math.isfinite(g.imag)):
+            return False
         if exact:
             if fr(g).re != w.re or fr(g).im != w.im:
                 return False
